@@ -60,8 +60,9 @@ def make_run_one(num_slots, lookups):
         loads = []
         ph = [('new',)] * m
         results = [None] * m
+        role = [None] * m
         tasks = {}
-        st = {'viol': None, 'sig': None, 'kinds': {}, 'calling': None, 'maxsize': 0}
+        st = {'viol': None, 'sig': None, 'kinds': {}, 'maxsize': 0}
 
         def fail(sig, msg):
             if st['viol'] is None:
@@ -76,9 +77,9 @@ def make_run_one(num_slots, lookups):
             for ld in loads:
                 if ld['key'] == k and alive(ld):
                     fail('second-load-while-one-in-flight',
-                         f'load({k!r}) called (during lookup #{st["calling"]}) while load #{ld["id"]} of the same key is still in flight '
+                         f'load({k!r}) called while load #{ld["id"]} of the same key is still in flight '
                          f'({ld["stage"]}); cancellations={st["kinds"]}')
-            ld = {'id': len(loads), 'key': k, 'opt': None, 'stage': 'created', 'done_t': None, 'owner': st['calling']}
+            ld = {'id': len(loads), 'key': k, 'opt': None, 'stage': 'created', 'done_t': None, 'end_t': None}
             ld['coro'] = _load(ld)
             loads.append(ld)
             return ld['coro']
@@ -101,6 +102,7 @@ def make_run_one(num_slots, lookups):
                 return (ld['key'], ld['id'])
             except asyncio.CancelledError:
                 ld['stage'] = 'cancelled'
+                ld['end_t'] = vloop.now()
                 raise
 
         cache = TimeLimitedMaxSizeCache(load, LIFETIME * 10**9, num_slots, 'verif')
@@ -118,8 +120,9 @@ def make_run_one(num_slots, lookups):
             n0 = len(loads)
             t_call = vloop.now()
             inflight0 = {ld['id'] for ld in loads if ld['key'] == k and alive(ld)}
-            ph[i] = ('look', n0)
-            st['calling'] = i
+            # the lookup that starts a flight is the "loader", lookups joining while another one waits are "sharers"
+            role[i] = 'sharer' if any(j != i and ph[j][0] == 'look' and lookups[j][0] == k for j in range(m)) else 'loader'
+            ph[i] = ('look', n0, role[i])
             try:
                 v = await cache.lookup(k)
             except asyncio.CancelledError:
@@ -147,7 +150,7 @@ def make_run_one(num_slots, lookups):
                 if age > LIFETIME:
                     fail('stale-value-returned', f'lookup #{i} ({k!r}) at t={vloop.now() - 1000:g} returned the value loaded at '
                          f't={loads[lid]["done_t"] - 1000:g}: age {age:g} > lifetime {LIFETIME}')
-                results[i] = ('ok', lid, 'hit' if lid < n0 and lid not in inflight0 else 'loaded' if loads[lid]['owner'] == i and lid >= n0 else 'shared')
+                results[i] = ('ok', lid, 'hit' if lid < n0 and lid not in inflight0 else 'loaded' if role[i] == 'loader' else 'shared')
             ph[i] = ('done',)
 
         def wake_pending(t):
@@ -159,8 +162,7 @@ def make_run_one(num_slots, lookups):
                 return K_AFTER
             if ph[v][0] in ('new', 'sleep'):
                 return K_BEFORE
-            role = 'loader' if any(ld['owner'] == v and ld['id'] >= ph[v][1] for ld in loads) else 'sharer'
-            return role + (':after-load-done-before-resume' if wake_pending(t) else ':while-waiting')
+            return role[v] + (':after-load-done-before-resume' if wake_pending(t) else ':while-waiting')
 
         async def controller(v, t):
             if t > 0:
@@ -183,7 +185,6 @@ def make_run_one(num_slots, lookups):
             return c
 
         def hook():
-            st['calling'] = None
             n = len(internals())
             if n > st['maxsize']:
                 st['maxsize'] = n
@@ -196,7 +197,7 @@ def make_run_one(num_slots, lookups):
             c = internals()
             exp = getattr(cache, '_expiry_time', {})
             return (tuple(ph), tuple(results), tuple(t.done() for t in tasks.values()), tuple(sorted(st['kinds'].items())),
-                    tuple((ld['key'], ld['opt'], ld['stage'], ld['owner'], alive(ld), None if ld['done_t'] is None else now - ld['done_t'])
+                    tuple((ld['key'], ld['opt'], ld['stage'], alive(ld), None if ld['done_t'] is None else now - ld['done_t'])
                           for ld in loads),
                     tuple(sorted((k, v, exp.get(k, 0) - now_ns) for k, v in c.items())),
                     tuple(sorted(getattr(cache, '_futures', {}))), st['maxsize'], st['viol'] is None)
@@ -291,7 +292,7 @@ def configs(tier):
 
 SELFCHECK = [
     (1, (('a', 0, None), ('a', 0, 0))),
-    (1, (('a', 0, None), ('b', 0, None), ('a', 10, 10))),
+    (1, (('a', 0, None), ('b', 10, 10))),
     (2, (('a', 0, 0), ('a', 0, None), ('a', 11, None))),
 ]
 
